@@ -12,7 +12,7 @@ iteration order `it : List Member` as an explicit argument; it is meant to be a 
 The mutable `_prereleases` attribute (settable after construction on `Specifier` and on
 `SpecifierSet`) is the state machine `Hist` at the end of this file.
 -/
-namespace SS
+namespace SSet
 open Py V S
 
 /-- a `Specifier` object: (`_spec`, `_prereleases`) -/
@@ -190,4 +190,4 @@ def lastWrite (init : Option Bool) : List Ev → Option Bool
   | .set b :: r => lastWrite b r
   | .call :: r => lastWrite init r
 
-end SS
+end SSet
